@@ -601,6 +601,7 @@ func ruleC12(prog *Program, rep *Report) {
 	ruleTruthMatrix(prog, rep)
 	ruleRadix(prog, rep)
 	rulePresenceByNil(prog, rep) // a null member must reach the operators as null, not as Nothing
+	ruleDivGuard(prog, rep, []string{"jp:script.go"}, nil, 5)
 }
 
 // ruleTruthMatrix: M-truth and M-table (shared by C12 and C05).
